@@ -12,7 +12,7 @@ git merge -q --ff-only main 2>/dev/null
 cp $out/demo/*_test.go $wt/$ddir/ 2>/dev/null
 r1=$(cd $wt/$ddir && timeout 900 go test $xflags -count=1 -run "$pat" . 2>&1 | tail -3)
 echo "$r1" | grep -q "^ok" && dc=PASS || dc=FAIL
-rm -f $wt/$ddir/zz_*_test.go
+rm -f $wt/$ddir/zz_*_test.go $wt/$ddir/*demo*_test.go
 git apply $out/patch.diff || { echo "SEED $id $PID PATCH-DOES-NOT-APPLY"; exit 1; }
 b=$( (cd $wt && go build ./... && cd lib/go && go build ./... && go build -tags verif ./...) 2>&1 | tail -3)
 t1=$(cd $wt && timeout 1200 go test -count=1 ./... 2>&1 | grep -v "no test files" | grep -v "^ok" | tail -3)
